@@ -17,10 +17,17 @@
 
    PROVED here, for all inputs without size bound: on the stage-1 fragment (module-level code without
    nested scopes: Fragment.s1_block) the reported (line, name) pairs are EXACTLY PySem's failing
-   global lookups - both directions at once.  The fragment with function / class / comprehension
-   scopes (deferred loads, scope hiding) is covered by correspondence + execution oracle only. *)
+   global lookups - both directions at once.
+   On the stage-2 fragment (stage 1 + def with decorators / defaults / annotations / nested defs / closures, and
+   lambdas: Fragment.s2_block; no class, no comprehension) soundness and precision are proved per occurrence:
+   every NameError read is reported on its line, and every reported (line, name) is a failing read on that line -
+   a NameError or an UnboundLocalError-like failure (exactness is false there: C05_missing_exact_refuted_stage2).
+   The same two statements on the stage-3 fragment (stage 2 + comprehensions, nested and inside functions / lambdas:
+   Fragment.s3_block; inside a comprehension no lambda, and no nested scope in the iterable of its first generator).
+   Class scopes are covered by correspondence + execution oracle only. *)
 From Coq Require Import NArith List Bool.
-From Verif Require Import Scope.PySyntax Scope.Finder Scope.PySem Scope.Fragment Scope.FinderProofs Scope.UnusedProofs.
+From Verif Require Import Scope.PySyntax Scope.Finder Scope.PySem Scope.Fragment Scope.FinderProofs Scope.UnusedProofs
+                          Scope.Stage2Final Scope.Stage2Unused Scope.Stage3Final.
 Import ListNotations.
 
 (* stage 1, per occurrence: pyflyby reports a name rooted at n on line l  <->  the read of n on line l
@@ -173,4 +180,173 @@ Example C05_repaired_classes :
   find_missing [] [[]] [SFor 1 (TName 41) (EOp [ELoad 41 []]) [SPass 2] []] = [[41]] /\
   find_missing [] [[]] [SDef 1 42 [] (Params [] [(43, None); (44, Some (ELoad 43 []))] None [] None [] [])
                              (Some (ELoad 43 [])) [SPass 2]] = [[43]].
+Proof. vm_compute. repeat split. Qed.
+
+
+(* ---------- stage 2: function and lambda scopes (Fragment.s2_block) ----------
+   Simulation of the visitor with its deferred loads (Scope/Stage2*.v): every scope id carries the set of root
+   names it will hold when the module has been scanned; a deferred entry is "reported in the end" iff the check
+   against these final sets fails; PySem evaluates a function body in the finalised enclosing frames. *)
+(* per occurrence: a read that fails with NameError is reported on its line *)
+Theorem C05_missing_sound_stage2 : forall bi ns p, s2_block p = true -> star_free bi ns = true ->
+  forall l n, In (l, n, Unbound) (pysem bi ns p) -> exists a, In (l, n :: a) (fst (finder bi ns false p)).
+Proof. exact s2_missing_sound. Qed.
+Print Assumptions C05_missing_sound_stage2.
+
+(* per occurrence: a reported (line, name) is a failing read of its root on that line *)
+Theorem C05_missing_precise_stage2 : forall bi ns p, s2_block p = true -> star_free bi ns = true ->
+  forall l n a, In (l, n :: a) (fst (finder bi ns false p)) ->
+  In (l, n, Unbound) (pysem bi ns p) \/ In (l, n, UnboundLocal) (pysem bi ns p).
+Proof. exact s2_missing_precise. Qed.
+Print Assumptions C05_missing_precise_stage2.
+
+(* in the words of the property *)
+Theorem C05_find_missing_sound_stage2 : forall bi ns p l n, s2_block p = true -> star_free bi ns = true ->
+  In (l, n, Unbound) (pysem bi ns p) -> exists a, In (n :: a) (find_missing bi ns p).
+Proof. exact s2_find_missing_sound. Qed.
+Print Assumptions C05_find_missing_sound_stage2.
+Theorem C05_find_missing_precise_stage2 : forall bi ns p n a, s2_block p = true -> star_free bi ns = true ->
+  In (n :: a) (find_missing bi ns p) ->
+  exists l, In (l, n, Unbound) (pysem bi ns p) \/ In (l, n, UnboundLocal) (pysem bi ns p).
+Proof. exact s2_find_missing_precise. Qed.
+Print Assumptions C05_find_missing_precise_stage2.
+
+(* exactness (reported <-> NameError) stops at stage 1:   def f(): x ; x = 1   - the read of x is deferred with a
+   copy of f's scope as it is at the read, so it is reported; Python raises UnboundLocalError, not NameError *)
+Definition exact_at (p : program) : Prop :=
+  forall l n, (exists a, In (l, n :: a) (fst (finder [] [[]] false p))) <-> In (l, n, Unbound) (pysem [] [[]] p).
+Definition W_unboundlocal : program :=
+  [SDef 1 70 [] (Params [] [] None [] None [] []) None [SExpr 2 (ELoad 71 []); SAssign 3 [TName 71] (EOp [])]].
+Theorem C05_missing_exact_refuted_stage2 : s2_block W_unboundlocal = true /\ ~ exact_at W_unboundlocal.
+Proof.
+  split. reflexivity. unfold exact_at. intro H.
+  assert (E : In (2%nat, 71, Unbound) (pysem [] [[]] W_unboundlocal)). { apply H. exists []. vm_compute. auto. }
+  vm_compute in E. intuition discriminate.
+Qed.
+Print Assumptions C05_missing_exact_refuted_stage2.
+
+(* what the fragments exclude, one witness each (beyond the class / comprehension witnesses above):
+   - `from m import *` silences every report (has_star_import): soundness fails
+   - the else branch of if / while and except handlers are scanned but not run by a fully executed program, and
+     `__all__ = ['x']` is checked like a read: precision fails *)
+Definition precise_at (p : program) : Prop :=
+  forall l n a, In (l, n :: a) (fst (finder [] [[]] false p)) ->
+  In (l, n, Unbound) (pysem [] [[]] p) \/ In (l, n, UnboundLocal) (pysem [] [[]] p).
+Definition W_star : program := [SImportFrom 1 [72] [(n_star, None)]; SExpr 2 (ELoad 73 [])].
+Definition W_orelse : program := [SIf 1 (EOp []) [SPass 2] [SExpr 3 (ELoad 74 [])]].
+Definition W_all : program := [SAllAssign 1 [75]].
+Theorem C05_missing_sound_refuted_star : ~ sound_at [] [[]] W_star.
+Proof. unfold sound_at. intro H. destruct (H 2%nat 73) as (a & Ha). vm_compute; auto. vm_compute in Ha. exact Ha. Qed.
+Print Assumptions C05_missing_sound_refuted_star.
+Theorem C05_missing_precise_refuted_orelse : ~ precise_at W_orelse.
+Proof. unfold precise_at. intro H. destruct (H 3%nat 74 []) as [E|E]. vm_compute; auto. vm_compute in E. exact E. vm_compute in E. exact E. Qed.
+Print Assumptions C05_missing_precise_refuted_orelse.
+Theorem C05_missing_precise_refuted_all : ~ precise_at W_all.
+Proof. unfold precise_at. intro H. destruct (H 1%nat 75 []) as [E|E]. vm_compute; auto. vm_compute in E. exact E. vm_compute in E. exact E. Qed.
+Print Assumptions C05_missing_precise_refuted_all.
+
+(* non-vacuity: a stage-2 program with a reported NameError in a nested function, a reported UnboundLocal, a
+   closure read that is bound, a decorator / default / annotation read in the enclosing scope *)
+(* @d                      line 1: d unbound
+   def f(a, b=a, c: q = 1) -> r:   line 2: a (default) unbound at module level; q, r unbound
+       g = lambda z, w=a: z + w + a + u    line 3: w=a bound (parameter a); body: a bound, u unbound
+       def h():            line 4
+           v               line 5: UnboundLocal in h
+           v = a           line 6: a closure read, bound
+           return k        line 7: k bound later at module level
+       h()                 line 8
+   k = 1                   line 9 *)
+Definition P_stage2 : program :=
+  [SDef 2 80 [(1%nat, ELoad 81 [])]
+     (Params [] [(82, None); (83, None); (84, Some (ELoad 85 []))] None [] None [ELoad 82 []; EOp []] [])
+     (Some (ELoad 86 []))
+     [SAssign 3 [TName 87] (ELambda [88; 89] [ELoad 82 []] (EOp [ELoad 88 []; ELoad 89 []; ELoad 82 []; ELoad 90 []]));
+      SDef 4 91 [] (Params [] [] None [] None [] []) None
+        [SExpr 5 (ELoad 92 []); SAssign 6 [TName 92] (ELoad 82 []); SExpr 7 (ELoad 93 [])];
+      SExpr 8 (EOp [ELoad 91 []])];
+   SAssign 9 [TName 93] (EOp [])].
+Example C05_nonvacuous_stage2 :
+  s2_block P_stage2 = true /\ s1_block P_stage2 = false /\
+  fst (finder [] [[]] false P_stage2) = [(1%nat, [81]); (2%nat, [82]); (2%nat, [85]); (2%nat, [86]); (3%nat, [90]); (5%nat, [92])] /\
+  pysem [] [[]] P_stage2 =
+    [(1%nat, 81, Unbound); (2%nat, 82, Unbound); (2%nat, 85, Unbound); (2%nat, 86, Unbound);
+     (3%nat, 82, Bound BOther); (3%nat, 88, Bound BOther); (3%nat, 89, Bound BOther); (3%nat, 82, Bound BOther); (3%nat, 90, Unbound);
+     (5%nat, 92, UnboundLocal); (6%nat, 82, Bound BOther); (7%nat, 93, Bound BOther); (8%nat, 91, Bound BOther)].
+Proof. vm_compute. repeat split. Qed.
+
+
+(* ---------- the unused side on stage 2 (for C02) ----------
+   Fragment.u2_block: stage-2 code whose import statements are top-level statements of the module binding one-component
+   keys (what tidy-imports edits); Fragment.imports_once: every imported name is bound exactly once at module level and is
+   no builtin / initial-namespace name.  Proof: the tracking-on run, erased, is the tracking-off run (Stage2Erase.v), so
+   the stage-2 simulation gives the structure; on top of it, every read PySem resolves to an import has either marked
+   that import's checker or sits in the deferred list with a stack on which the final check will (Stage2Unused.v). *)
+Theorem C05_unused_sound_stage2 : forall bi ns p, u2_block p = true -> star_free bi ns = true ->
+  imports_once bi ns p = true -> NoDup (imp_events (bsrcs_block false p)) ->
+  forall l i, In (l, i) (snd (finder bi ns true p)) ->
+  forall ln n, ~ In (ln, n, Bound (BImp l i)) (pysem bi ns p).
+Proof. exact u2_unused_sound. Qed.
+Print Assumptions C05_unused_sound_stage2.
+
+(* what the fragment excludes: a function-local import read by a nested function that is defined before it (C05a) *)
+Theorem C05_unused_sound_refuted_local_import :
+  ~ unused_sound_at [SDef 1 90 [] (Params [] [] None [] None [] []) None
+                       [SDef 2 91 [] (Params [] [] None [] None [] []) None [SExpr 3 (ELoad 92 [])];
+                        SImport 4 [([92], None)]; SExpr 5 (EOp [ELoad 91 []])]].
+Proof. unfold unused_sound_at. intro H. apply (H 4%nat ([92], [92])) with (ln := 3%nat) (n := 92); vm_compute; auto. Qed.
+Print Assumptions C05_unused_sound_refuted_local_import.
+
+
+(* ---------- stage 3: comprehensions (Fragment.s3_block) ----------
+   A comprehension may stand wherever an expression may - at module level, in function and lambda bodies, defaults,
+   decorators, annotations - and comprehensions nest.  Restrictions: inside a comprehension there is no lambda; the iterable
+   of the first generator contains no lambda and no comprehension (pyflyby visits it inside the comprehension's scope,
+   Python evaluates it outside: C05_missing_sound_refuted_firstiter is what happens to a deferred read there).
+   Proof (Scope/Stage3*.v): the open comprehension scopes extend the stage-2 stack; the levels below keep their stage-2
+   invariant with those scopes listed as "being filled"; a small invariant relates each comprehension scope to its
+   FComp frame; loads are re-proved for the extended stack (immediate at module level, deferred in functions - the
+   recorded stack then holds the enclosing function's scope by reference and a copy of the innermost comprehension scope). *)
+Theorem C05_missing_sound_stage3 : forall bi ns p, s3_block p = true -> star_free bi ns = true ->
+  forall l n, In (l, n, Unbound) (pysem bi ns p) -> exists a, In (l, n :: a) (fst (finder bi ns false p)).
+Proof. exact s3_missing_sound. Qed.
+Print Assumptions C05_missing_sound_stage3.
+Theorem C05_missing_precise_stage3 : forall bi ns p, s3_block p = true -> star_free bi ns = true ->
+  forall l n a, In (l, n :: a) (fst (finder bi ns false p)) ->
+  In (l, n, Unbound) (pysem bi ns p) \/ In (l, n, UnboundLocal) (pysem bi ns p).
+Proof. exact s3_missing_precise. Qed.
+Print Assumptions C05_missing_precise_stage3.
+Theorem C05_find_missing_sound_stage3 : forall bi ns p l n, s3_block p = true -> star_free bi ns = true ->
+  In (l, n, Unbound) (pysem bi ns p) -> exists a, In (n :: a) (find_missing bi ns p).
+Proof. exact s3_find_missing_sound. Qed.
+Print Assumptions C05_find_missing_sound_stage3.
+Theorem C05_find_missing_precise_stage3 : forall bi ns p n a, s3_block p = true -> star_free bi ns = true ->
+  In (n :: a) (find_missing bi ns p) ->
+  exists l, In (l, n, Unbound) (pysem bi ns p) \/ In (l, n, UnboundLocal) (pysem bi ns p).
+Proof. exact s3_find_missing_precise. Qed.
+Print Assumptions C05_find_missing_precise_stage3.
+
+(* the first-iterable witness above is exactly what s3 excludes: a lambda inside the iterable of the first generator *)
+Example C05_firstiter_outside_stage3 : s3_block W_firstiter = false.
+Proof. reflexivity. Qed.
+
+(* non-vacuity:
+     x = [a for a in b if a.c]                      line 1: b is read in the enclosing scope: unbound
+     def f(p):                                      line 2
+         [q + p + r for q in p for r in q if s]     line 3: s unbound (deferred, found nowhere in the end)
+     z = [u for t in x for u in [w for w in t]]     line 4: a nested comprehension
+     [v for v in v]                                 line 5: the iterable v is not the target v                  *)
+Definition P_stage3 : program :=
+  [SAssign 1 [TName 110] (EComp [Gen (ELoad 112 []) (TName 111) [ELoad 111 [113]]] [ELoad 111 []]);
+   SDef 2 114 [] (Params [] [(115, None)] None [] None [] []) None
+     [SExpr 3 (EComp [Gen (ELoad 115 []) (TName 116) []; Gen (ELoad 116 []) (TName 117) [ELoad 118 []]] [EOp [ELoad 116 []; ELoad 115 []; ELoad 117 []]])];
+   SAssign 4 [TName 119] (EComp [Gen (ELoad 110 []) (TName 121) []; Gen (EComp [Gen (ELoad 121 []) (TName 122) []] [ELoad 122 []]) (TName 120) []] [ELoad 120 []]);
+   SExpr 5 (EComp [Gen (ELoad 123 []) (TName 123) []] [ELoad 123 []])].
+Example C05_nonvacuous_stage3 :
+  s3_block P_stage3 = true /\ s2_block P_stage3 = false /\
+  fst (finder [] [[]] false P_stage3) = [(1%nat, [112]); (3%nat, [118]); (5%nat, [123])] /\
+  pysem [] [[]] P_stage3 =
+    [(1%nat, 112, Unbound); (1%nat, 111, Bound BOther); (1%nat, 111, Bound BOther); (3%nat, 115, Bound BOther);
+     (3%nat, 116, Bound BOther); (3%nat, 118, Unbound); (3%nat, 116, Bound BOther); (3%nat, 115, Bound BOther);
+     (3%nat, 117, Bound BOther); (4%nat, 110, Bound BOther); (4%nat, 121, Bound BOther); (4%nat, 122, Bound BOther);
+     (4%nat, 120, Bound BOther); (5%nat, 123, Unbound); (5%nat, 123, Bound BOther)].
 Proof. vm_compute. repeat split. Qed.
